@@ -139,7 +139,8 @@ def check(run):
     thorough = run.tier == "thorough"
     run.cov["rule"] = ("behaviours = walks covering every edge of the TLC state graph of Blob.tla (sequential generation configs: all sizes/chunks/"
                        "(off,len), all server personalities, cache loss, failing commit) replayed call by call on a real fs/remote blob "
-                       "(real httpFetcher + scripted in-memory registry + recording cache), plus free-running goroutine traces; non-trivial = "
+                       "(real httpFetcher + scripted in-memory registry + recording cache), walks covering every (slice, region) edge of RegionSetCheck "
+                       "replayed on the real Go regionSet, plus free-running goroutine traces; non-trivial = "
                        "the registry was asked at least once; distinct by hash of the recorded event list")
     run.assumptions += [
         "the registry is honest about bytes: Content-Range/Content-Length describe the body it sends (a lying registry is outside C06)",
@@ -149,8 +150,8 @@ def check(run):
         "concurrent executions (free runs) are judged by the monitor formulas on recorded results only, not by conformance",
     ]
     W = 8 if thorough else 4     # the machine is shared: small models do not profit from more workers
-    dev = os.environ.get("VERIF_C06_DEV", "") in ("1", "2")   # development only: skips the exhaustive stages (2: also re-uses the walks
-    reuse = os.environ.get("VERIF_C06_DEV") == "2"            # saved by a dev run); such a run always ends inconclusive or with a violation
+    dev = os.environ.get("VERIF_C06_DEV", "") == "1"   # development only: skips the exhaustive stages; such a run always ends
+    reuse = False                                      # inconclusive or with a violation
     if dev:
         run.inconclusive.append("VERIF_C06_DEV set: exhaustive stages skipped")
     # ---- M: the region set transcription against set union, exhaustively
@@ -167,7 +168,7 @@ def check(run):
         run.tlc_mc("Blob", "Blob_mc_conc.cfg", {"Sizes": "{3, 4}"}, workers=W, timeout=3000, name="Blob_mc_conc.cfg sizes 3,4")
     else:
         run.tlc_mc("Blob", "Blob_mc_seq.cfg", {"Sizes": "{0, 1, 2, 3, 4}", "MaxLen": "5", "MaxReq": "2"}, workers=W, timeout=1500)
-        run.tlc_mc("Blob", "Blob_mc_conc.cfg", None, workers=W, timeout=1500)
+        run.tlc_mc("Blob", "Blob_mc_conc.cfg", {"Pers": '{"multi", "half", "err"}'}, workers=W, timeout=1500, name="Blob_mc_conc.cfg 3 personalities")
     if not reuse:
       small = {"Sizes": "{3, 4}", "Chunks": "{2}", "MaxLen": "4", "MaxOps": "1", "MaxReq": "1"}
       run.tlc_negctl("Blob", "Blob_mc_seq.cfg", dict(small, AllSeenCheck="FALSE"), ["ReadExact"], drop=INTERNAL)
@@ -186,11 +187,6 @@ def check(run):
                              "MaxLen": "2", "MaxOps": "3", "MaxReq": "3", "MaxLoss": "0", "MaxCFail": "0"}))
     rs_in, rs_out, rs_all = regionset_binding(run, thorough)
     jobs, exhaustive = [], rs_all
-    if reuse:
-        jobs = json.load(open("/tmp/c06-dev/walks.json"))
-        for j in jobs:
-            j["out"] = os.path.join(run.scratch, "replay_%s.ndjson" % j["name"])
-        gens = []
     for name, ov in gens:
         inits, edges = run.tlc_edges("BlobGen", "Blob_gen_seq.cfg", ov, timeout=2400)
         walks, st = edge_cover(inits, edges, maxlen=24, rng=run.rng, extra_walks=300 if thorough else 40)
@@ -208,10 +204,6 @@ def check(run):
                                  "VERIF_FREE_TRACES": "600" if thorough else "120", "VERIF_FREE_OPS": "10"}, timeout=2400)
     if rc != 0:
         classify_races(run, out)
-    if dev and not reuse:
-        os.makedirs("/tmp/c06-dev", exist_ok=True)
-        for fpath in [inp, free] + [j["out"] for j in jobs]:
-            shutil.copy(fpath, "/tmp/c06-dev/")
     regionset_validate(run, rs_out)
     for j in jobs:
         validate(run, j["out"], "replay-" + j["name"])
